@@ -8,7 +8,7 @@ RULE = ("M: Transformers.tla -- all histories of fit/transform/fit_transform of 
         "keep-first fit (refuted in two steps). R/V: seeded random interleavings (3..10 calls over 2..4 data sets, any subset of start/stop "
         "fixed by the user incl. 0, collections of 1..4 diagrams, flatten or not) on real PersistenceLandscaper / PersistenceImager objects; "
         "after every call the public attributes and a digest of every returned array are recorded; TraceTransformers.tla walks each "
-        "history with a memo (fitted state, diagram) -> output. Non-trivial = history with >=2 fits on different data; distinct = history.")
+        "history with a memo (state, diagram) -> output; a transform must leave the attributes alone on fitted and unfitted estimators alike. Non-trivial = history with >=2 fits on different data; distinct = history.")
 NOTFIXED = 1000000
 E = [Emb(1, 0, True, "tick=1"), Emb(Fraction(1, 4), 0, True, "tick=1/4"), Emb(Fraction(1, 10), 0, False, "tick=0.1")]
 
@@ -27,7 +27,7 @@ def gen(rng, kind):
         sets.append(coll)
     ops = []
     for i in range(rng.randint(3, 10)):
-        op = rng.choice([1, 2, 3]) if i else rng.choice([1, 3])
+        op = rng.choice([1, 2, 3]) if i else rng.choice([1, 3, 2])      # a history may begin with a transform (unfitted estimator)
         ops.append([op, rng.randrange(nds)])
     return sets, ops
 
@@ -42,7 +42,7 @@ def validate(ctx, items, label, nproc=12):
             continue
         e = it["emb"]
         evs = []
-        for ev in r["events"]:
+        for ev in [dict(op=0, ds=0, attrs=r["init"], outs=[], statekey=0)] + r["events"]:
             ok = 1
             if it["job"]["kind"] == "landscaper":
                 at = []
@@ -63,7 +63,11 @@ def validate(ctx, items, label, nproc=12):
                     at.append(t)
                 at += ev["attrs"][7:]
             evs.append([ev["op"], ev["ds"] + 1, at, [[kx if it["job"]["kind"] == "imager" else kx + 1, d] for kx, d in ev["outs"]], ok, ev["statekey"]])
-        cases.append(dict(kind=it["job"]["kind"], ufix=it["ufix"], datasets=it["tladatasets"], events=evs)); idx.append(i)
+        init, evs = evs[0], evs[1:]
+        if not init[4]:
+            ctx.extra["skipped_undecodable_initial_state"] = ctx.extra.get("skipped_undecodable_initial_state", 0) + 1
+            continue
+        cases.append(dict(kind=it["job"]["kind"], ufix=it["ufix"], datasets=it["tladatasets"], events=evs, init=init[2])); idx.append(i)
     verdicts, st = tlc.run_batch("TraceTransformers", cases, nproc=nproc)
     ctx.extra.setdefault("trace_validation_runs", []).append(dict(label=label, cases=len(cases), tlc_states=st["states"], wall_s=round(st["wall"], 1)))
     for c, v, i in zip(cases, verdicts, idx):
